@@ -103,7 +103,7 @@ def gen_e2e(rng, n_cases):
                                           "output.pkl.thread-1-pid-7", "extra.bin"])])
         vanish = rng.choice([None, None, 0, 1, 2])     # the k-th deletion finds a stale folder: deleted, then OSError(ESTALE)
         cases.append({"mode": "e2e", "entries": entries, "orphans": orphans, "bl": bl, "il": il, "al": al, "now": now,
-                      "vanish": vanish, "stale": stale})
+                      "vanish": vanish, "stale": stale, "loc": rng.choice(["abs", "abs", "hex", "rel", "relsub"])})
     return cases
 
 
